@@ -312,8 +312,16 @@ def run_seq(acc, rnd, nops, cid):
             if bad == "１２":
                 continue  # full-width digits: int() accepts them; 'non-canonical spelling' is unspecified
             before = walk(c)
-            got = outcome(lambda: c.set(bad, "v"))
-            trace[-1] = (op, repr(bad))
+            how = rnd.choice(["set", "set", "set_group", "add_group", "ctor"])
+            if how == "set":
+                got = outcome(lambda: c.set(bad, "v"))
+            elif how == "set_group":
+                got = outcome(lambda: c.set_group(bad, [{11: "x"}]))
+            elif how == "add_group":
+                got = outcome(lambda: c.add_group(bad, {11: "x"}))
+            else:
+                got = outcome(lambda: FIXContainer({bad: [{11: "x"}]}))
+            trace[-1] = (op, how, repr(bad))
             expect(op, got, ("exc", "FIXMessageError"))
             if walk(c) != before:
                 V("refused-set-changed-container", f"set({bad!r}) raised but the container changed")
